@@ -43,7 +43,7 @@ def r1_lastkey(ck, F, R="C02-R1"):
     ck.floor(R, "index entries keyed by last key", n, 4, F.config)
     lk = F.body(A("bw_last_key"))
     e = lk.expr_at_return()
-    ck.ob(R, "last-key-getter", is_self_field(e, "last_key") or (is_call(e, "Option::<T>::map") and is_self_field(e.strip().a[0], "last_key")), f"BlockWriter::last_key returns {e.show()}", lk)
+    ck.ob(R, "last-key-getter", pure_option_view(e, "last_key"), f"BlockWriter::last_key returns {e.show()}", lk)
 
 
 def r2_descent(ck, F):
@@ -122,10 +122,16 @@ def r3_rel(ck, F):
         okc = False
         if cl:
             ents = calls(cl[0], A("block_entry_at"))
-            okc = len(ents) == 1 and is_call(cl[0].expr_at_return(), "Option::<T>::map")
-        ck.ob(R, "binary-search-key-fn", okc, "key extractor decodes the stored key at the table slot (entry_at(off).map(key))", le)
-        inner = [c for c in F.closures_of(le.path) if c.path.endswith("{closure#0}::{closure#0}")]
-        oki = len(inner) == 1 and inner[0].expr_at_return().strip().k == "field" and inner[0].expr_at_return().strip().x["idx"] == 0
+            somes = [x for x in flat_alts(cl[0].expr_at_return()) if x.k == "agg" and x.x.get("variant") == "Some"]
+            okc = len(ents) == 1 and len(somes) == 1
+            oki = False
+            if okc:
+                kx = somes[0].a[0].strip()
+                src = unwrap_payload(kx.a[0], "Some") if (kx.k == "field" and kx.x["idx"] == 0) else None
+                oki = src is not None and src.strip().x.get("site") == ents[0][0]
+        else:
+            oki = False
+        ck.ob(R, "binary-search-key-fn", okc, "key extractor decodes the stored entry at the table slot (entry_at(off))", le)
         ck.ob(R, "binary-search-compares-key-part", oki, "the extractor projects the key (field 0) of the decoded entry", le)
     cmps = byte_comparisons(le)
     ck.exact(R, "scan comparisons in BlockCursor <=-seek", len(cmps), 1, F.config)
@@ -150,29 +156,40 @@ def r3_rel(ck, F):
     # --- ReaderCursor <=-seek
     rle = F.body(A("rc_prefix") + "move_on_key_lower_than_or_equal_to")
     _eq_then(ck, R, F, rle, "ReaderCursor<=", seek_call=A("rc_prefix") + "move_on_key_greater_than_or_equal_to", probe="target_key", eq_false=A("rc_prefix") + "move_on_prev", none_action=A("rc_prefix") + "move_on_last")
-    cl = F.closures_of(rle.path)
-    flt = [c for c in cl if byte_comparisons(c)]
-    ck.exact(R, "filter closures in ReaderCursor <=-seek", len(flt), 1, F.config)
-    for c in flt:
-        for cm in byte_comparisons(c):
-            op, st, pr, okp = _canon(cm, [])
-            ck.ob(R, "last-entry-filter", op == "<=" and okp, f"no ceiling: the last entry is kept iff `stored {op} probe`", c, cm["site"])
+    flt = [cm for cm in byte_comparisons(rle) if cm["op"] != "=="]
+    for c in F.closures_of(rle.path):
+        flt += [dict(cm, body=c) for cm in byte_comparisons(c)]
+    ck.exact(R, "filter comparisons in ReaderCursor <=-seek", len(flt), 1, F.config)
+    for cm in flt:
+        bdy = cm.get("body", rle)
+        op, st, pr, okp = _canon(cm, ["target_key"])
+        last_calls = calls(rle, A("rc_prefix") + "move_on_last")
+        from_last = len(last_calls) == 1 and (bdy is not rle or any(e.k == "call" and e.x.get("site") == last_calls[0][0] for e in st.walk()))
+        ck.ob(R, "last-entry-filter", op == "<=" and okp and from_last, f"no ceiling: the last entry is kept iff `stored {op} probe`", bdy, cm["site"])
     # --- ReaderCursor ==-seek
     req = F.body(A("rc_prefix") + "move_on_key_equal_to")
     cs = calls(req, A("rc_prefix") + "move_on_key_greater_than_or_equal_to")
     ck.exact(R, ">=-seek calls in ==-seek", len(cs), 1, F.config)
     if cs:
         ck.ob(R, "eq-seek-probe", is_arg(req.arg_exprs(cs[0][0])[1], "key"), "==-seek runs the >=-seek on the caller's key", req, cs[0][0])
-    flt = [c for c in F.closures_of(req.path) if byte_comparisons(c)]
-    ck.exact(R, "filter closures in ==-seek", len(flt), 1, F.config)
-    for c in flt:
-        for cm in byte_comparisons(c):
-            op, st, pr, okp = _canon(cm, [])
-            ck.ob(R, "eq-filter", op == "==" and okp, f"the ceiling is kept iff `stored {op} probe`", c, cm["site"])
+    flt = [dict(cm, body=req) for cm in byte_comparisons(req)]
+    for c in F.closures_of(req.path):
+        flt += [dict(cm, body=c) for cm in byte_comparisons(c)]
+    ck.exact(R, "filter comparisons in ==-seek", len(flt), 1, F.config)
+    for cm in flt:
+        op, st, pr, okp = _canon(cm, ["key"])
+        ck.ob(R, "eq-filter", op == "==" and okp, f"the ceiling is kept iff `stored {op} probe`", cm["body"], cm["site"])
     # --- no comparison anywhere on the seek path uses lengths or sub-slices of keys
     for b in (le, ge, rle, req):
         for cm in byte_comparisons(b):
-            sub = [e for x in (cm["a"], cm["b"]) for e in x.walk() if e.k == "index" or (e.k == "call" and e.x["path"].rsplit("::", 1)[-1] in ("len", "get", "split_at", "first", "last"))]
+            sub = []
+            for x in (cm["a"], cm["b"]):
+                y = x.strip()
+                # follow payload / tuple projections down to what the compared value is a part of
+                while y.k in ("field", "downcast"):
+                    y = y.a[0].strip()
+                if y.k == "index" or (y.k == "call" and y.x["path"].rsplit("::", 1)[-1] in ("len", "get", "split_at", "first", "last", "index", "split_first", "split_last")):
+                    sub.append(y)
             ck.ob(R, f"whole-key-comparison/{b.path.split('::')[-1]}", not sub, "keys are compared as whole byte strings (no length / sub-slice comparison)", b, cm["site"])
 
 
@@ -182,8 +199,8 @@ def _eq_then(ck, R, F, b, tag, seek_call, probe, eq_false, none_action):
     if not sk:
         return
     ck.ob(R, f"inner-seek-probe/{tag}", is_arg(b.arg_exprs(sk[0][0])[1], probe), f"{tag}: inner seek on the caller's probe", b, sk[0][0])
-    cmps = byte_comparisons(b)
-    ck.exact(R, f"comparisons in {tag}", len(cmps), 1, F.config)
+    cmps = [c for c in byte_comparisons(b) if c["op"] == "=="]
+    ck.exact(R, f"equality comparisons in {tag}", len(cmps), 1, F.config)
     if len(cmps) != 1:
         return
     c = cmps[0]
